@@ -135,6 +135,43 @@ def gen_pool(tree):
     need(len(reasons) == 1, "expected exactly one `except NoFreeWorkersError: job.denyConnection(<text>)` in events()")
     need(reasons[0].strip() != "", "refusal reason is empty")
 
+    # Worker.run: `self.job = None; self.pool.notify_done(self)` must follow the try statement around `self.job()`
+    # unconditionally (a job that ends by raising is handed back like one that returns)
+    wrun = find_func(mod, "run", "Worker")
+    loops = [n for n in wrun.body if isinstance(n, ast.While)]
+    need(len(loops) == 1, "Worker.run: expected one while loop")
+    body = loops[0].body
+    tries = [k for k, st in enumerate(body) if isinstance(st, ast.Try) and any(
+        isinstance(c, ast.Call) and is_self_attr(c.func, "job") for c in ast.walk(st))]
+    need(len(tries) == 1, "Worker.run: expected exactly one try statement around self.job()")
+    tr = body[tries[0]]
+    catches_exception = any(isinstance(h.type, ast.Name) and h.type.id in ("Exception", "BaseException") or h.type is None for h in tr.handlers)
+
+    def is_job_clear(st):
+        return isinstance(st, ast.Assign) and len(st.targets) == 1 and is_self_attr(st.targets[0], "job") \
+            and isinstance(st.value, ast.Constant) and st.value.value is None
+
+    def is_notify(st):
+        return isinstance(st, ast.Expr) and isinstance(st.value, ast.Call) and isinstance(st.value.func, ast.Attribute) \
+            and st.value.func.attr == "notify_done"
+    after = body[tries[0] + 1:]
+    in_try_only = len(tr.body) == 1 and not tr.orelse
+    handback = bool(catches_exception and in_try_only and len(after) >= 2 and is_job_clear(after[0]) and is_notify(after[1])
+                    and not any(isinstance(n, (ast.Break, ast.Continue, ast.Return, ast.Raise)) for h in tr.handlers for n in ast.walk(h)))
+    # accept loop: the accepted socket gets its COMMTIMEOUT before the connection is submitted (so the refusal
+    # handshake, which runs in the accept-loop thread, cannot block forever on a silent peer)
+    blocks = [n for n in ast.walk(ev) if isinstance(n, ast.With)]
+    need(len(blocks) >= 1, "events(): with-block not found")
+    stmts = blocks[0].body
+
+    def has_call(st, attr):
+        return any(isinstance(c, ast.Call) and isinstance(c.func, ast.Attribute) and c.func.attr == attr for c in ast.walk(st))
+    k_submit = [k for k, st in enumerate(stmts) if has_call(st, "process")]
+    need(len(k_submit) == 1, "events(): expected exactly one statement calling pool.process")
+    k_timeout = [k for k, st in enumerate(stmts) if isinstance(st, ast.If) and has_call(st, "settimeout")
+                 and any(isinstance(n, ast.Attribute) and n.attr == "COMMTIMEOUT" for n in ast.walk(st.test))]
+    timeout_first = bool(k_timeout and k_timeout[0] < k_submit[0])
+
     def show(acc):
         return ["%s:%s@%d:%s" % (a, k, ln_, "OUT" if r is None else "in%d" % r) for a, k, r, ln_ in acc]
     out = HEADER % "Pyro5/svr_threads.py"
@@ -145,7 +182,12 @@ def gen_pool(tree):
     out += "(* Pool.close: %s *)\n" % show(accc)
     out += "Definition pool_close_notify_locked : bool := %s.\n" % cbool(l1)
     out += "Definition pool_close_swap_locked : bool := %s.\n" % cbool(l2)
+    out += "(* Worker.run: job slot cleared and notify_done called after the try around self.job(), whatever the job did *)\n"
+    out += "Definition worker_handback_unconditional : bool := %s.\n" % cbool(handback)
+    out += "(* events(): `if config.COMMTIMEOUT: csock.settimeout(...)` precedes pool.process(job) *)\n"
+    out += "Definition accept_timeout_before_submit : bool := %s.\n" % cbool(timeout_first)
     out += "(* reason passed to denyConnection when the pool is full: %r *)\n" % reasons[0]
     out += "Definition deny_reason : list N := %s.\n" % ctext(reasons[0])
     return out, {"process_locked": lp, "notify_locked": ln, "close1_locked": l1, "close2_locked": l2, "deny_reason": reasons[0],
+                 "worker_handback": handback, "accept_timeout_before_submit": timeout_first,
                  "ast_sha": {"process": ast_sha(process), "notify_done": ast_sha(notify), "close": ast_sha(close)}}
